@@ -8,6 +8,7 @@ import (
 
 	crypto "github.com/onflow/crypto"
 	"github.com/onflow/crypto/hash"
+	"verifharness/hashx"
 	"verifharness/ref"
 )
 
@@ -176,14 +177,11 @@ func runPop(raw json.RawMessage, seed int64) (res Result) {
 		}
 	}
 	one := w.SK(big.NewInt(1))
-	hpop := func(pkBytes []byte) ref.G1 { // H_pop(pk bytes), through sk = 1 and the independently built PoP hasher
-		s, err := one.Sign(pkBytes, popHasher())
-		if err != nil {
-			panic(err)
-		}
-		p, err := ref.G1Decompress(s)
-		if err != nil {
-			panic(err)
+	hpop := func(pkBytes []byte) ref.G1 { // H_pop(pk bytes): reference KMAC128 under the documented PoP ciphersuite, reference hash-to-curve
+		p := ref.HashBytesToG1(hashx.RefKMAC128([]byte("BLS_POP_BLS12381G1_XOF:KMAC128_SSWU_RO_POP_"), []byte("H2C"), pkBytes, 128))
+		// the library, handed the independently rebuilt PoP hasher, must sign that very point under sk = 1
+		if s, err := one.Sign(pkBytes, popHasher()); err != nil || !bytes.Equal(s, p.Compress()) {
+			add("DocumentedHashToCurve", fmt.Sprintf("Sign(sk = 1) of the public key bytes under the PoP ciphersuite is %x (err %v), the documented hash-to-curve image is %x", []byte(s), err, p.Compress()))
 		}
 		return p
 	}
